@@ -14,8 +14,9 @@ import (
 )
 
 type helperSite struct {
-	Caller *Func
-	Call   *ast.CallExpr
+	Caller    *Func
+	Call      *ast.CallExpr
+	Recursive bool // the helper also calls itself: it is part of its caller, but the facts of the outer call site do not hold for the inner calls
 }
 
 func (p *Prog) buildHelperIndex() {
@@ -100,11 +101,18 @@ func (p *Prog) buildHelperIndex() {
 				}
 			}
 		}
-		if len(sites) != 1 {
+		var outer []CallSite
+		for _, s := range sites {
+			if s.Caller != fn {
+				outer = append(outer, s)
+			}
+		}
+		if len(outer) != 1 {
 			continue
 		}
-		cs := sites[0]
-		if cs.Caller == fn || cs.InLit != nil {
+		cs := outer[0]
+		recursive := len(outer) != len(sites)
+		if cs.InLit != nil {
 			continue
 		}
 		bad := false
@@ -120,7 +128,7 @@ func (p *Prog) buildHelperIndex() {
 		if bad {
 			continue
 		}
-		p.helperOf[fn] = &helperSite{cs.Caller, cs.Call}
+		p.helperOf[fn] = &helperSite{cs.Caller, cs.Call, recursive}
 	}
 	// break cycles (mutual sole callers cannot happen without recursion, but be safe)
 	for fn := range p.helperOf {
@@ -158,7 +166,7 @@ func (p *Prog) HelperRoot(fn *Func) *Func {
 func (p *Prog) HelpersOf(fn *Func) []*Func {
 	var out []*Func
 	for _, h := range p.funcs {
-		if h != fn && p.HelperSite(h) != nil && p.HelperRoot(h) == fn {
+		if h != fn && p.HelperSite(h) != nil && p.helperWithin(h, fn) {
 			out = append(out, h)
 		}
 	}
@@ -371,7 +379,7 @@ func (p *Prog) CanonSrc(e ast.Expr, env *Env, depth int) string {
 				}
 			}
 		}
-		return x.Name
+		return p.aliasName(x)
 	case *ast.BinaryExpr:
 		return sub(x.X) + " " + x.Op.String() + " " + sub(x.Y)
 	case *ast.UnaryExpr:
@@ -553,7 +561,22 @@ func (p *Prog) isRecvTerm(fn *Func, t Term) bool {
 
 // inFn: owner is fn or an extracted-block helper of fn.
 func (p *Prog) inFn(owner, fn *Func) bool {
-	return owner == fn || (owner != nil && p.HelperSite(owner) != nil && p.HelperRoot(owner) == fn)
+	return owner == fn || (owner != nil && p.helperWithin(owner, fn))
+}
+
+// helperWithin: h is an extracted block of fn, directly or through a chain of extracted blocks.
+func (p *Prog) helperWithin(h, fn *Func) bool {
+	for i := 0; i < 20; i++ {
+		hs := p.HelperSite(h)
+		if hs == nil {
+			return false
+		}
+		if hs.Caller == fn {
+			return true
+		}
+		h = hs.Caller
+	}
+	return false
 }
 
 // InspectDeep visits the body of fn and the bodies of its private helpers (extracted blocks and shared helpers).
@@ -682,4 +705,55 @@ func (p *Prog) returnsNilOr(fn *Func, names ...string) bool {
 		}
 	}
 	return n > 0
+}
+
+// assignedFrom: the local variables of fn (and of its private helpers) that are somewhere assigned the
+// (first) result of a call of one of the named functions.  Identifies a local by what it holds, not by its name.
+func (p *Prog) assignedFrom(fn *Func, names ...string) map[types.Object]bool {
+	out := map[types.Object]bool{}
+	p.InspectDeep(fn, func(n ast.Node) bool {
+		var lhs, rhs []ast.Expr
+		switch x := n.(type) {
+		case *ast.AssignStmt:
+			lhs, rhs = x.Lhs, x.Rhs
+		case *ast.ValueSpec:
+			for _, nm := range x.Names {
+				lhs = append(lhs, nm)
+			}
+			rhs = x.Values
+		default:
+			return true
+		}
+		for i, r := range rhs {
+			call, ok := unparen(r).(*ast.CallExpr)
+			if !ok || !p.IsCall(call, names...) || i >= len(lhs) {
+				continue
+			}
+			if id, isID := unparen(lhs[i]).(*ast.Ident); isID {
+				if o := p.ObjOf(id); o != nil {
+					out[o] = true
+				}
+			}
+		}
+		return true
+	})
+	return out
+}
+
+// identIn: e is an identifier denoting one of the objects.
+func (p *Prog) identIn(e ast.Expr, set map[types.Object]bool) bool {
+	id, ok := unparen(e).(*ast.Ident)
+	return ok && set[p.ObjOf(id)]
+}
+
+// callsInNode: calls of the named functions below n.
+func (p *Prog) callsInNode(n ast.Node, names ...string) []*ast.CallExpr {
+	var out []*ast.CallExpr
+	ast.Inspect(n, func(m ast.Node) bool {
+		if call, ok := m.(*ast.CallExpr); ok && p.IsCall(call, names...) {
+			out = append(out, call)
+		}
+		return true
+	})
+	return out
 }
